@@ -187,6 +187,7 @@ func (ex *Exec) runPath(prefix []int) {
 	ex.pc, ex.draws = nil, nil
 	ex.protected = map[*value]string{}
 	ex.protectedMaps = map[*MapV]string{}
+	ex.pathFlags = map[string]bool{}
 	ex.resetGlobals()
 	ex.steps, ex.depth, ex.errSeq, ex.objSeq, ex.timeSeq = 0, 0, 0, 0, 0
 	ex.imprecise = nil
